@@ -69,7 +69,10 @@ def reader_check(pair, core, disk, label):
     if api != got:
         raise Violation("reader:info", "%s: API reports (length, byte length, contiguous, writeable) = %s, the files say %s" % (label, api, got), label)
     n = st["length"]
-    for i in list(range(min(n, 50))) + [n, n + 1]:
+    edges = [i for e in range(32768, n + 1, 32768) for i in range(e - 6, e + 6) if i < n]
+    for i in list(range(min(n, 50))) + edges + [n - 1, n, n + 1]:
+        if i < 0:
+            continue
         a, _ = p.do("has %s %d" % (core, i))
         if (a == "ok 1") != (i in st["held"] and i < n or i in st["held"]):
             raise Violation("reader:has", "%s: has(%d)=%s but the files say held=%s" % (label, i, a, i in st["held"]), label)
@@ -206,6 +209,19 @@ def main(tier, seed):
             res.disagreements.extend(pair.disagreements[:2]); pair.disagreements = []
             if len(res.violations) >= 4:
                 break
+        # a core longer than one 32768-bit bitfield page: page 1 of the bitfield file must sit at byte 4096
+        pair.reset(); pair.raw("disk D"); pair.do("new W D writer")
+        pair.do("append W " + " ".join(["41"] * 20000))
+        pair.do("append W " + " ".join(["42"] * 13500))
+        try:
+            reader_check(pair, "W", "D", "large core (33500 blocks)")
+            pair.raw("drop W"); pair.do("open W D")
+            reader_check(pair, "W", "D", "large core (33500 blocks) after reopen")
+            res.count("reader-checks-large-core", 2)
+        except Violation as v:
+            res.violations.append(dict(key=v.key, what=v.what, replay=dict(history="append 20000 one-byte blocks; append 13500; reader")))
+        res.add_case(("large-core",), True)
+        res.disagreements.extend(pair.disagreements[:2]); pair.disagreements = []
         # replica files: block-only and upgrade-only entries
         import c03
         for k in range(6 if tier == "quick" else 100):
